@@ -26,7 +26,7 @@ from asl.absint import UNKNOWN
 from asl.cfg import cfg_of
 from asl.flow import reachable
 from asl.loader import AnalysisError, Package, norm, own_nodes
-from asl.values import mentions
+from asl.values import atoms_deep, mentions
 from .common import real_units
 
 LEVEL = {
@@ -65,9 +65,35 @@ def run(ctx) -> None:
     r07_5(ctx)
     r07_6(ctx)
     r07_7(ctx)
+    r07_8(ctx)
     positive_example(ctx)
     ctx.floor("underlying_uses", 5)
     ctx.floor("positive_example_fired", 1)
+
+
+def r07_8(ctx) -> None:
+    """A borrowed handle forwards asend / athrow to the underlying iterator (that is its documented job), so a library
+    tool that throws into or sends to an iterator it was handed would reach the owner's iterator through the handle."""
+    from asl.cfg import cfg_of as _cfg
+    from .common import real_units
+    ctx.rule("R07.8", "no library operation calls athrow / asend on an iterator it was given (a borrowed handle forwards both to the "
+                      "underlying iterator: throwing into the handle would terminate the owner's iterator)")
+    borrow = {ctx.pkg.cls(s).node for s in BORROW_CLASSES}
+    n_sites = 0
+    for u in real_units(ctx):
+        if u.cls is not None and u.cls.node in borrow:
+            continue  # the handle's own forwarding
+        cfg = _cfg(u)
+        for n in cfg.nodes:
+            if n.kind != "attr" or n.tag or n.ast.attr not in ("athrow", "asend") or not isinstance(n.ast.ctx, ast.Load):
+                continue
+            v = ctx.vals.expr(u, n.ast.value, n)
+            if any(a[0] in ("user", "iter", "item", "scoped", "borrowed") for a in atoms_deep(v)):
+                n_sites += 1
+                ctx.fail("R07.8", u, n.ast, f"`{norm(n.ast)}` is looked up on an iterator the operation was handed: through a borrowed "
+                         "or scoped handle this reaches the owner's underlying iterator", node=n)
+    if not n_sites:
+        ctx.ok("R07.8", "package", "no athrow / asend on an iterator handed to a library operation")
 
 
 def r07_7(ctx) -> None:
